@@ -5,7 +5,7 @@ from fractions import Fraction
 
 from .. import astq, nf
 from ..errors import AnalysisError
-from ..interp import ClassRef, Closure, Hooks, Interp, Intrinsic, Obj, SimRaise
+from ..interp import Cat, ClassRef, Closure, Hooks, Interp, Intrinsic, Obj, SimRaise
 from ..model import own_nodes, RepoModel, ClassInfo
 from ..nf import Rat
 from . import integrate_kit as ik
@@ -190,14 +190,41 @@ class SdeintHooks(Hooks):
         return NotImplemented
 
 
-def eval_sdeint(model, extra_state, extra=True, which=("torchsde/_core/sdeint.py", "sdeint")):
+def eval_sdeint(model, extra_state, extra=True, which=("torchsde/_core/sdeint.py", "sdeint"), logqp=False):
     fi = model.func(*which)
     hooks = SdeintHooks()
+    if logqp:
+        # shape-level meaning of what parse_return does to the solution when it separates the log-ratio channel
+        def tensor_method(interp, recv, name, args, kwargs, node, f2, _orig=hooks.tensor_method):
+            if name == "split":
+                return (nf.sym("YS_STATE"), [nf.sym("L0"), nf.sym("L1"), nf.sym("L2")])
+            if name in ("squeeze", "unsqueeze", "contiguous"):
+                return recv
+            if name == "size":
+                return nf.sym("size", True)
+            if name in ("new_zeros", "new_ones", "new_empty"):
+                return nf.fn(name.upper(), recv)
+            return _orig(interp, recv, name, args, kwargs, node, f2)
+        hooks.tensor_method = tensor_method
+
+        def tensor_attr(interp, recv, name, node, f2, _orig=hooks.tensor_attr):
+            if name == "shape":
+                return (nf.sym("B", True), nf.sym("D", True))
+            return _orig(interp, recv, name, node, f2)
+        hooks.tensor_attr = tensor_attr
+
+        def external_call(interp, dotted, args, kwargs, node, f2, _orig=hooks.external_call):
+            if dotted == "torch.stack":
+                return Cat("stack", list(args[0]), kwargs.get("dim", Fraction(0)))
+            if dotted == "torch.cat":
+                return Cat("cat", list(args[0]), kwargs.get("dim", args[1] if len(args) > 1 else Fraction(0)))
+            return _orig(interp, dotted, args, kwargs, node, f2)
+        hooks.external_call = external_call
     it = Interp(model, hooks)
     ts = Obj("ts", getitem_hook=lambda i, o, idx, n, f: nf.sym(f"ts[{idx}]", True))
     kw = dict(sde=Obj("user-sde"), y0=nf.sym("y0"), ts=ts, bm=Obj("bm"), method="midpoint", dt=nf.sym("dt", True),
               adaptive=False, rtol=nf.sym("rtol", True), atol=nf.sym("atol", True), dt_min=nf.sym("dt_min", True),
-              options=None, names=None, logqp=False, extra=extra, extra_solver_state=extra_state)
+              options=None, names=None, logqp=logqp, extra=extra, extra_solver_state=extra_state)
     out = it.call_function(fi, [], kw)
     return out, hooks, fi
 
@@ -220,6 +247,31 @@ def r13_2(ctx):
                   f"(init calls: {len(hooks_r.init_calls)}, other solver calls: {[c[0] for c in hooks_r.other_solver_calls]}): the "
                   f"supplied state must reach the stepping loop unchanged, or a restarted run differs from the one-shot run",
                   "extra_solver_state reaches integrate unchanged")
+    # ... also when the log-ratio is requested: the state handed in reaches the loop as it is, and the state handed back is
+    # the loop's (the extra channel of the augmented system is part of the solver state: its drift entry is the integrand at
+    # the hand-over time, which reversible Heun uses as the left end of its next trapezoid)
+    for which in (("torchsde/_core/sdeint.py", "sdeint"), ("torchsde/_core/adjoint.py", "sdeint_adjoint")):
+        try:
+            out_q, hooks_q, fi_q = eval_sdeint(model, E, extra=True, which=which, logqp=True)
+        except TypeError:
+            continue
+        ic = hooks_q.integrate_calls if which[1] == "sdeint" else [a[-2:] for a in hooks_q.apply_args]
+        if which[1] == "sdeint":
+            ok_in = len(ic) == 1 and isinstance(ic[0][2], (tuple, list)) and len(ic[0][2]) == len(E) and \
+                all(isinstance(a, Rat) and nf.equal(a, b) for a, b in zip(ic[0][2], E)) and not hooks_q.init_calls
+            shown = [str(x) for x in ic[0][2]] if ic and isinstance(ic[0][2], (tuple, list)) else None
+        else:
+            flat = [x for a in hooks_q.apply_args for x in a if isinstance(x, Rat)]
+            ok_in = any(nf.equal(x, E[0]) for x in flat) and not hooks_q.init_calls
+            shown = [str(x) for x in flat][:8]
+        rep.check(ok_in, "R13.2", astq.loc(fi_q), f"{fi_q.key}::R13.2::resume::logqp",
+                  f"{which[1]}(logqp=True, extra_solver_state=E) hands the solver `{shown}` (init calls: {len(hooks_q.init_calls)}): "
+                  f"the supplied state must reach the stepping loop unchanged", "extra_solver_state reaches integrate unchanged")
+        ok_out = isinstance(out_q, tuple) and len(out_q) == 3 and isinstance(out_q[2], (tuple, list)) and len(out_q[2]) == 1 \
+            and isinstance(out_q[2][0], Rat) and nf.equal(out_q[2][0], nf.sym("EXTRA_OUT"))
+        rep.check(ok_out, "R13.2", astq.loc(fi_q), f"{fi_q.key}::R13.2::returns-extra::logqp",
+                  f"{which[1]}(logqp=True, extra=True) returns the extra state `{out_q[2] if isinstance(out_q, tuple) and len(out_q) == 3 else out_q}`; "
+                  f"it must be the loop's final extra state as it is", "returns integrate's extra")
     ok = isinstance(out, tuple) and len(out) == 2 and nf.equal(out[0], nf.sym("YS_OUT")) and \
         isinstance(out[1], tuple) and len(out[1]) == 1 and nf.equal(out[1][0], nf.sym("EXTRA_OUT"))
     rep.check(ok, "R13.2", astq.loc(fi), f"{fi.key}::R13.2::returns-extra",
